@@ -23,6 +23,7 @@ mod props_c09;
 mod props_c10;
 mod props_c16;
 mod props_mem;
+mod props_th;
 mod seq;
 mod simio;
 
@@ -49,7 +50,7 @@ pub fn all_props() -> Vec<Box<dyn framework::Prop>> {
         let h = hyb.remove(pos);
         v.push(Box::new(framework::Composite {
             id: "C17",
-            parts: vec![Box::new(h), Box::new(props_mem::c17_mem())],
+            parts: vec![Box::new(h), Box::new(props_mem::c17_mem()), Box::new(props_th::c17_th())],
         }));
     }
     // C11 = task-poll orderings (Engine V) + the check-then-insert window under threads (Engine T)
@@ -58,6 +59,14 @@ pub fn all_props() -> Vec<Box<dyn framework::Prop>> {
         v.push(Box::new(framework::Composite {
             id: "C11",
             parts: vec![Box::new(h), Box::new(props_c02::c11_t())],
+        }));
+    }
+    // C01 = task-poll orderings (Engine V) + client calls racing on OS threads with the runtime (Engine TH)
+    if let Some(pos) = hyb.iter().position(|p| p.id == "C01") {
+        let h = hyb.remove(pos);
+        v.push(Box::new(framework::Composite {
+            id: "C01",
+            parts: vec![Box::new(h), Box::new(props_th::c01_th())],
         }));
     }
     for p in hyb {
@@ -71,7 +80,7 @@ pub fn all_props() -> Vec<Box<dyn framework::Prop>> {
     // C16 = re-entrant callbacks (Engine S + lock monitor) + deadlock freedom under threads (Engine T)
     v.push(Box::new(framework::Composite {
         id: "C16",
-        parts: vec![Box::new(props_c16::C16Prop), Box::new(props_c02::c16_t()), Box::new(props_hyb::c16_hyb())],
+        parts: vec![Box::new(props_c16::C16Prop), Box::new(props_c02::c16_t()), Box::new(props_hyb::c16_hyb()), Box::new(props_th::c16_th())],
     }));
     v.push(Box::new(props_c02::c02()));
     v.push(Box::new(props_c08::C08Prop));
